@@ -208,7 +208,7 @@ def exc_name_of(e):
 
 
 CATCH_ALL = ("Exception", "BaseException")
-PARENTS = {"KeyError": ("LookupError",), "IndexError": ("LookupError",), "ZeroDivisionError": ("ArithmeticError",),
+PARENTS = {"UnboundLocalError": ("NameError",), "KeyError": ("LookupError",), "IndexError": ("LookupError",), "ZeroDivisionError": ("ArithmeticError",),
            "FileNotFoundError": ("OSError", "IOError"), "UnicodeDecodeError": ("ValueError",)}
 
 
@@ -357,7 +357,13 @@ class ObjEvaluator(Evaluator):
             return ("class", node.id)
         if node.id in ("open", "hasattr", "getattr", "setattr", "type", "dict", "print", "repr", "set", "object"):
             return ("builtin", node.id)
-        return Evaluator.e_Name(self, node, env)
+        try:
+            return Evaluator.e_Name(self, node, env)
+        except AnalysisError as e:
+            if "unbound name" in str(e):
+                # a local that no executed statement has bound: Python raises UnboundLocalError (a NameError)
+                raise PyRaise("NameError", node, node.id)
+            raise
 
     def e_Constant(self, node, env):
         if isinstance(node.value, bytes):
@@ -395,6 +401,24 @@ class ObjEvaluator(Evaluator):
             if v is not None:
                 return v
         return r
+
+    def import_exists(self, dotted):
+        """does the dotted name denote a module of the repository or a top-level name of one?"""
+        import os
+        from . import core as _core
+        parts = dotted.split(".")
+        rel = "/".join(parts)
+        if os.path.exists(_core.repo_path(rel + ".py")) or os.path.exists(_core.repo_path(rel + "/__init__.py")):
+            return True
+        try:
+            other = _core.module("/".join(parts[:-1]) + ".py")
+        except AnalysisError:
+            try:
+                other = _core.module("/".join(parts[:-1]) + "/__init__.py")
+            except AnalysisError:
+                return False
+        nm = parts[-1]
+        return nm in other.functions or nm in other.classes or nm in other.assigns or nm in other.imports
 
     def resolve_import(self, dotted):
         """a module-level constant (or re-exported import) of another module of the repository, evaluated there"""
@@ -782,6 +806,18 @@ class ObjEvaluator(Evaluator):
                     raise AnalysisError("E7: isinstance against %r (line %d)" % (t, node.lineno))
             k = self.type_of(args[0])
             return k in names or (k == "bool" and "int" in names)
+        if name in ("hasattr", "getattr") and len(args) >= 2 and isinstance(args[0], tuple) and len(args[0]) == 2 \
+                and args[0][0] == "import" and isinstance(args[1], str):
+            dotted = args[0][1] + "." + args[1]
+            exists = self.import_exists(dotted)
+            if name == "hasattr":
+                return exists
+            if exists:
+                v = self.resolve_import(dotted)
+                return v if v is not None else ("import", dotted)
+            if len(args) == 3:
+                return args[2]
+            raise PyRaise("AttributeError", node, dotted)
         if name == "hasattr" and len(args) == 2 and isinstance(args[0], Obj) and isinstance(args[1], str):
             return args[1] in args[0].attrs or self.find_method(args[0], args[1]) is not None
         if name == "getattr" and len(args) in (2, 3) and isinstance(args[0], Obj) and isinstance(args[1], str):
